@@ -296,10 +296,11 @@ func RunC10(r *core.Run) {
 	// URI port: for EVERY accepted URI of an exhaustive family the reported number
 	// must be the decimal value of the reported port text (whatever else the URI holds:
 	// numeric passwords, bracketed hosts, ...)
+	// (the second family found D17 at length 8 in the thorough tier; quick now reaches it too)
 	for _, fam := range []struct {
 		alpha  string
 		lq, lt int
-	}{{":@[]1", 10, 11}, {":@[]19;a?", 7, 8}} {
+	}{{":@[]1", 10, 11}, {":@[]1;a?", 8, 9}} {
 		L := fam.lq
 		if !r.Quick() {
 			L = fam.lt
